@@ -63,6 +63,8 @@ type ContractFile struct {
 	Path    string
 	Imports []string
 	Decls   []string // raw ghost Go declarations ("//@ ghost …" blocks)
+	DeclsBad string   // set when a ghost block does not compile: the file's items become stale
+	declLn  [][2]int
 	Items   []*Item
 }
 
@@ -573,7 +575,7 @@ func desugar(s string) string {
 			isEqT := ch == '(' && (endsWithWord(out.String(), "EqT") || endsWithWord(out.String(), "EqTP") || endsWithWord(out.String(), "Panics") || endsWithWord(out.String(), "Returns") ||
 				strings.HasSuffix(out.String(), "verifspec.EqT") || strings.HasSuffix(out.String(), "verifspec.Panics"))
 			isEq := ch == '(' && endsWithWord(out.String(), "Eq") || ch == '(' && strings.HasSuffix(out.String(), "verifspec.Eq")
-			if isEq || strings.Contains(inner, "forall ") || strings.Contains(inner, "exists ") || strings.Contains(inner, "EqT") || strings.Contains(inner, "Panics(") || strings.Contains(inner, "Returns(") || isEqT {
+			if isEq || strings.Contains(inner, "Eq(") || strings.Contains(inner, "==>") || strings.Contains(inner, "forall ") || strings.Contains(inner, "exists ") || strings.Contains(inner, "EqT") || strings.Contains(inner, "Panics(") || strings.Contains(inner, "Returns(") || isEqT {
 				ti := strings.TrimSpace(inner)
 				if ch == '(' && (strings.HasPrefix(ti, "forall ") || strings.HasPrefix(ti, "exists ")) {
 					inner = desugar(ti)
@@ -613,7 +615,7 @@ func desugar(s string) string {
 	return qualifySpec(r)
 }
 
-var reSpecFn = regexp.MustCompile(`(^|[^A-Za-z0-9_.])(EqT|Eq|SameArray|Same|Fresh|Calls|NoCalls|Unchanged|Panics|AtomicWrites|CalledOnce|TraceLen|TraceCall|Holding|Spawned|RunSpawned|IterLen|IterPosAtEntry|IterPos)\(`)
+var reSpecFn = regexp.MustCompile(`(^|[^A-Za-z0-9_.])(EqT|Eq|SameArray|Same|Fresh|Calls|NoCalls|Unchanged|Panics|AtomicWrites|CalledOnce|TraceLen|TraceCall|Holding|Shared|Peek|Spawned|RunSpawned|IterLen|IterPosAtEntry|IterPos)\(`)
 
 func qualifySpec(s string) string {
 	for {
